@@ -5,7 +5,7 @@ SPEC = {
     'variants': ['', 't32'],
     'lean_modules': ['N2k.Props.Consts.C01', 'N2k.Props.C01'], 'props_files': ['N2k/Props/Consts/C01.lean', 'N2k/Props/C01.lean'],
     'translators': ['constants', 'pgn_tables'],
-    'case_start': ['reset', 'reset0'],
+    'case_start': ['reset', 'reset0', 'tpseq'],
     'trusted_base': ["PGN classification tables are REGENERATED from src/NMEA2000.cpp on every run (tools/translators/pgn_tables.py: the "
                      "translation unit is compiled with a sweeping main and each classification function is EXECUTED on all 2^18 PGNs, the "
                      "arrays read to their terminator; a regex reading of g++ -E output is the cross-check) and the classification "
